@@ -159,7 +159,7 @@ def run(ctx):
         return recs.judge(ctx, "C16Judge", "C16Judge.cfg", files[k], workers=4, heap="6g", timeout=2400,
                           env=_judge_env(tier, star, wf, sf), tag="C16" + wt + "-j%03d" % k)
 
-    with cf.ThreadPoolExecutor(max_workers=max(1, jobs // 3)) as ex:
+    with cf.ThreadPoolExecutor(max_workers=max(1, (jobs + 1) // 3)) as ex:
         results = list(ex.map(judge, range(len(shards))))
     seen = set()
     nrec = ncmd = nsk = drift = states = trans = 0
@@ -215,8 +215,8 @@ def run(ctx):
         "transitions": mc["generated"] + trans + cl_trans,
         "traces_validated_against_impl": nrec,
         "evaluations": len(clr) * 15 + ncmd + nsk * 3,
-        "distinct_nontrivial": len(clr) * 15 - 15 + len(distinct),
-        "rule": "checkLevel: every (level, list) pair is a distinct input, all but those of the empty list non-trivial; sessions: "
+        "distinct_nontrivial": len({(tuple(r["ls"]), k) for r in clr if r["ls"] for k in range(1, 15)}) + len(distinct),
+        "rule": "checkLevel: distinct (list, level) pairs with non-empty list and non-empty level; sessions: "
                 "distinct (world, command form, slot, credentials, response class, disclosed values, telegrams, session user) tuples",
         "samples": [{"checkLevel": {"list": _txt(clr[100]["ls"]), "levels": lv15, "results": clr[100]["r"]}}, sample],
         "exhaustive": True,
